@@ -349,16 +349,17 @@ Fixpoint number_forwards (o : outgoing) (fidx : N) (fw : list (option cursor * p
       (o2, NForward c (set_p_pkid p pk) pr :: ns)
   end.
 
-(** register_ack: pops the head in any case; None unless it carries this pkid *)
+(** register_ack: pops the head iff it carries this pkid; an ack for anything else leaves the
+    window as it is (the unacknowledged head must survive into the saved session) *)
 Definition register_ack (o : outgoing) (pkid : N) : outgoing * bool :=
   match o_inflight o with
   | [] => (o, false)
-  | (h, _, _) :: r => (set_o_inflight o r, pkid =? h)
+  | (h, _, _) :: r => if pkid =? h then (set_o_inflight o r, true) else (o, false)
   end.
 Definition register_pubcomp (o : outgoing) (pkid : N) : outgoing * bool :=
   match o_pubrels o with
   | [] => (o, false)
-  | h :: r => (set_o_pubrels o r, pkid =? h)
+  | h :: r => if pkid =? h then (set_o_pubrels o r, true) else (o, false)
   end.
 (** retransmission_map: per filter_idx, the cursor of the first inflight entry that has one *)
 Fixpoint retransmission_map (infl : list (N * N * option cursor)) (acc : list (N * cursor)) : list (N * cursor) :=
@@ -513,7 +514,10 @@ Definition append_to_commitlog (st : rstate) (id : N) (p : publish) (props : opt
     (* validate_and_set_topic_alias *)
     do (st_p) <-
       (match alias with
-       | None => Ok (inl (st, p))
+       | None => match p_topic p with
+                 | [] => Ok (inr (Some RC_PROTOCOL))     (* [MQTT-4.7.3-1]: empty name, no alias *)
+                 | _ => Ok (inl (st, p))
+                 end
        | Some a =>
            if (a =? 0) || (TOPIC_ALIAS_MAX <? a) then Ok (inr (Some RC_ALIAS_INVALID))
            else match p_topic p with
@@ -1101,6 +1105,7 @@ Definition handle_last_will (st : rstate) (client : str) : R rstate :=
                    | None => None
                    end in
       if negb (utf8_valid (p_topic p)) then Ok st1
+      else if match p_topic p with [] => true | _ => false end then Ok st1   (* [MQTT-4.7.3-1] *)
       else
         let st2 := retain_update st1 (p_topic p) p props in
         do (st3, idxs) <- dl_matches st2 (p_topic p);
